@@ -16,17 +16,22 @@ def opcodes(ctx):
             ops[m.group(1)] = int(m.group(2))
     return ops
 
-def step_job(ctx, prefix, op, kinds, oracle=(), cap=3, nsteps=1, op2=None, extra_defs=(), timeout=300, mem=8, desc='', tag='', cuts=None, checks=()):
+def step_job(ctx, prefix, op, kinds, oracle=(), cap=3, nsteps=1, op2=None, extra_defs=(), timeout=300, mem=8, desc='', tag='', cuts=None, checks=(), typed_arrays=0):
     ops = opcodes(ctx)
     if op not in ops or (op2 and op2 not in ops):
         return None
+    stubs = STUBS
     defs = ['VMW_HAVE_INTERPRET=1', 'OPC=%d' % ops[op], 'NOPS=%d' % len(kinds), 'CAP=%d' % cap, 'NSTEPS=%d' % nsteps]
     if op2:
         defs.append('OPC2=%d' % ops[op2])
     for i, k in enumerate(kinds):
         defs.append('K%d=%d' % (i, KIND[k]))
     defs += ['ORACLE_%s=1' % o for o in oracle] + list(extra_defs)
-    if any(k == 'ARRM' for k in kinds):
+    if typed_arrays:
+        # typed fixed-capacity array blocks (hook in lib/lpc/array.h + world/vm_world.c): sizes, refs and tags constant-fold
+        defs.append('VERIF_ARRAY_ITEMS=%d' % typed_arrays)
+        stubs = STUBS + ['@world/typed_arrays.c']
+    elif any(k == 'ARRM' for k in kinds):
         mem = max(mem, 14)
     name = '%s.%s%s.%s' % (prefix, op[2:].lower(), ('+' + op2[2:].lower()) if op2 else '', '_'.join(k.lower() for k in kinds) or 'none') + (('.' + tag) if tag else '')
     # value kinds that cannot occur in this job: their release code is cut to `assert(false); assume(false)` bodies, so the
@@ -35,7 +40,7 @@ def step_job(ctx, prefix, op, kinds, oracle=(), cap=3, nsteps=1, op2=None, extra
         cuts = ['dealloc_mapping', 'dealloc_class', 'dealloc_funp', 'free_mapping', 'free_class']
     # the real error raising code is replaced by the error model of world_err.c (type_name, save/restore_context stay real)
     cuts = list(cuts) + ['error', 'error_handler', 'bad_arg', 'bad_argument', 'throw_error', 'mudlib_error_handler', 'debug_message_with_location']
-    return dict(name=name, cuts=cuts, checks=['--bounds-check', '--pointer-check', '--div-by-zero-check'] + list(checks), srcs=['@harness/vm/vm_step.c'] + REAL, stubs=STUBS, defs=defs, unwind=cap + 3,
+    return dict(name=name, cuts=cuts, checks=['--bounds-check', '--pointer-check', '--div-by-zero-check'] + list(checks), srcs=['@harness/vm/vm_step.c'] + REAL, stubs=stubs, defs=defs, unwind=cap + 3,
                 unwindset=['pop_n_elems.0:12', 'harness.0:13', 'harness.1:4', 'harness.2:4', 'harness.3:4', 'post_step.0:9', 'post_step.1:9', 'post_step.2:4', 'strlen.0:%d' % (cap + 30), 'type_name.0:12', 'strcpy.0:32', 'strcat.0:32', 'strncpy.0:32','verif_fmt.0:26', 'verif_fmt.1:26', 'verif_fmt.2:26', 'verif_fmt.3:26', 'verif_fmt.4:26', 'verif_fmt.5:26', 'verif_fmt.6:26', 'verif_fmt.7:26', 'verif_fmt.8:26', 'verif_fmt.9:26', 'verif_fmt.10:26', 'verif_fmt.11:26', 'free_svalue:2', 'dealloc_array:2', 'dealloc_class:2', 'dealloc_mapping:2', 'dealloc_funp:1', 'error:1', 'verif_on_error:1', 'post_step:1'],
                 flags=['--object-bits', '11'], targets=['eval_instruction'], restrict_fp=['free_svalue.function_pointer_call.1/vm_error_handler'], timeout=timeout, mem_gb=mem, opt_witness=['lpc_error_path', 'step_completed', 'returned_from_eval_instruction'],
                 desc=desc or ('one step of the real eval_instruction: %s%s on operands (%s, bottom->top), all values of each kind' % (op, (' then ' + op2) if op2 else '', ', '.join(kinds))),
